@@ -284,6 +284,21 @@ impl Ord for Key {
         match self.labels.len() {
             0 => cmp::Ordering::Equal,
             1 => self.labels[0].cmp(&other.labels[0]),
+            2 => {
+                // Order each pair by the full label, as `key_hasher_impl` does, so that two keys
+                // which are equal (the same two labels in either order) always compare as equal.
+                let (a0, a1) = if self.labels[0] < self.labels[1] {
+                    (&self.labels[0], &self.labels[1])
+                } else {
+                    (&self.labels[1], &self.labels[0])
+                };
+                let (b0, b1) = if other.labels[0] < other.labels[1] {
+                    (&other.labels[0], &other.labels[1])
+                } else {
+                    (&other.labels[1], &other.labels[0])
+                };
+                a0.cmp(b0).then_with(|| a1.cmp(b1))
+            }
             n if n < 8 => {
                 let mut labels_sort_map: [u8; 8] = [0, 1, 2, 3, 4, 5, 6, 7];
                 labels_sort_map[..n].sort_by_key(|i| self.labels[*i as usize].key());
